@@ -69,6 +69,9 @@ def random_dict(rng, depth=0, state=None):
                 fs.append({"n": f"l{rng.randint(0, 3)}", "dec": False, "sub": []})
         state["n"] += 1
         modes.append({"bf": f"bf{state['n']}", "meta": f"meta{rng.randint(0, 3)}", "fs": fs})
+    if len(modes) == 1 and rng.random() < 0.06:
+        # the same mode listed twice, word for word: still not a single decay chain
+        modes.append(copy.deepcopy(modes[0]))
     return modes
 
 
